@@ -89,7 +89,7 @@ class ExpressionGenerator:
 
         parts = []
         for i, cell_list in cells.items():
-            for c in cell_list:
+            for c in sorted(cell_list):
                 parts.append(geometry.write_table(ufl_geometry[i], c))
 
         return parts
